@@ -967,7 +967,12 @@ pub async fn start_replication_supervisor(
                             );
                             guards.push(guard);
                         } else {
-                            panic!("Re-adding a secoundary that alrady exists!!!")
+                            // A node that asks to join twice must not take the whole node down
+                            // (this loop runs on the main thread)
+                            log::warn!(
+                                "[start_replication_creator_thread] {} is already a member, ignoring the join",
+                                name
+                            );
                         }
                     }
 
